@@ -91,6 +91,12 @@ def un(op, e): return {"k": "un", "op": op, "e": e}
 def bin_(op, l, r): return {"k": "bin", "op": op, "l": l, "r": r}
 def chain(ops, es): return {"k": "chain", "ops": ops, "es": es}
 def ifexp(c, a, b): return {"k": "ifexp", "c": c, "a": a, "b": b}
+def select_(e, cases, default=None):
+    """cohdl.select_with(e, {key: value, ...}, default=...); cases: [(key expr (int / lit / strlit), value expr)]"""
+    return {"k": "select", "e": e, "keys": [k for k, _ in cases], "vals": [v for _, v in cases],
+            "hasdefault": 0 if default is None else 1, "default": default if default is not None else {"k": "int", "v": 0}}
+def any_(es): return {"k": "any", "es": es}
+def all_(es): return {"k": "all", "es": es}
 def slice_(e, hi, lo): return {"k": "slice", "e": e, "hi": hi, "lo": lo}
 def idx(e, i): return {"k": "idx", "e": e, "i": i}
 def dynidx(e, i): return {"k": "dynidx", "e": e, "i": i}
@@ -232,6 +238,12 @@ class Printer:
             for op, x in zip(e["ops"], e["es"][1:]):
                 parts += [_CMP[op], self.expr(x)]
             return "(" + " ".join(parts) + ")"
+        if k == "select":
+            arms = ", ".join(f"{self.expr(kk)}: {self.expr(v)}" for kk, v in zip(e["keys"], e["vals"]))
+            dflt = f", default={self.expr(e['default'])}" if e["hasdefault"] else ""
+            return f"cohdl.select_with({self.expr(e['e'])}, {{{arms}}}{dflt})"
+        if k in ("any", "all"):
+            return f"{k}([{', '.join(self.expr(x) for x in e['es'])}])"
         if k == "ifexp":
             return f"({self.expr(e['a'])} if {self.expr(e['c'])} else {self.expr(e['b'])})"
         if k == "slice":
